@@ -134,6 +134,15 @@ pub fn do_call(l: &PriceLevel, g: &UuidGenerator, tx: &TxIds, c: &Value) -> Valu
     }
 }
 
+/// the call with its order (if any) in canonical, complete form
+pub fn canon_call(c: &Value) -> Value {
+    let mut c = c.clone();
+    if c.get("o").is_some() {
+        c["o"] = order_json(&order_of(&c["o"]));
+    }
+    c
+}
+
 fn panic_msg(e: &Box<dyn std::any::Any + Send>) -> String {
     if let Some(s) = e.downcast_ref::<&str>() {
         s.to_string()
@@ -325,10 +334,17 @@ fn run_once(sched: &Arc<Sched>, sc: &Value, sc_ix: usize, run_ix: usize, micro: 
         let (level, gen, out, tx, sched2, incall) = (ex.level.clone(), ex.gen.clone(), out.clone(), tx.clone(), sched.clone(), incall.clone());
         Box::new(move || {
             for c in prog {
+                if c["op"] == "add" && c["fresh"].as_bool().unwrap_or(true) {
+                    // precondition of the properties: ids are unique among the resting orders
+                    let id = oid_of(c["o"]["id"].as_u64().unwrap_or(0));
+                    if unregistered(|| level.verif_queue().verif_orders().iter().any(|x| x.id() == id)) {
+                        continue;
+                    }
+                }
                 sched2.reset_steps(w);
                 *incall.lock().unwrap() += 1;
                 if micro {
-                    out.push(json!({"k": "call", "t": w + 1, "c": c}));
+                    out.push(json!({"k": "call", "t": w + 1, "c": canon_call(&c)}));
                 }
                 let r = std::panic::catch_unwind(std::panic::AssertUnwindSafe(|| do_call(&level, &gen, &tx, &c)));
                 let quiet = {
@@ -350,11 +366,11 @@ fn run_once(sched: &Arc<Sched>, sc: &Value, sc_ix: usize, run_ix: usize, micro: 
                 if micro {
                     let mut line = json!({"k": "ret", "t": w + 1, "r": rv});
                     if quiet {
-                        line["st"] = state_json(&level, Some(&gen), false);
+                        line["st"] = unregistered(|| state_json(&level, Some(&gen), false));
                     }
                     out.push(line);
                 } else {
-                    out.push(json!({"k": "cr", "t": w + 1, "c": c, "r": rv, "st": state_json(&level, Some(&gen), true)}));
+                    out.push(json!({"k": "cr", "t": w + 1, "c": canon_call(&c), "r": rv, "st": unregistered(|| state_json(&level, Some(&gen), true))}));
                 }
                 if stop {
                     break;
